@@ -570,6 +570,41 @@ J_iv_parse(e) ==
                     \o V("start", p.a.k = "dt" /\ p.a.w = st.w /\ p.a.off = OffOf(st), st.w)
                     \o V("end", p.b.k = "dt" /\ p.b.w = en.w /\ p.b.off = OffOf(en), en.w))
 
+\* ---- C17 -----------------------------------------------------------------------------
+\* characters of the supported notations (RFC 3339 also allows lower-case t and z)
+IsoAlphabet == (48..57) \cup {cColon, cT, cZ, cW, cSlash, cP, cPlus, cDash, cDot, cComma, cSp, cY, cM, cD, cH, cS, 116, 122}
+HasForeign(t) == \E i \in 1..Len(t) : t[i] \notin IsoAlphabet
+PendulumValue(p) == \/ (p.k = "dt" /\ p.cls = "DateTime") \/ (p.k = "date" /\ p.cls = "Date") \/ (p.k = "time" /\ p.cls = "Time")
+                    \/ (p.k = "dur" /\ p.cls = "Duration") \/ (p.k = "iv" /\ p.cls = "Interval")
+SameLow(a, b) == IF a.k # b.k THEN FALSE
+                 ELSE CASE a.k = "dt" -> a.w = b.w /\ Aware(a) = Aware(b) /\ a.off = b.off
+                        [] a.k \in {"date", "time"} -> a.w = b.w
+                        [] a.k = "dur" -> a.r3 = b.r3 /\ a.years = b.years /\ a.months = b.months
+                        [] OTHER -> TRUE
+J_parse_any(e) ==
+  LET t == e.a.text  p == e.post  o == e.a.opts
+      ascii == \A i \in 1..Len(t) : t[i] < 128
+      r == IF ascii /\ Len(t) <= 40 THEN Recognise(t) ELSE Invalid
+      rd == IF ascii /\ Len(t) <= 60 /\ Len(t) > 0 /\ t[1] = cP THEN RecDuration(t) ELSE Invalid
+      okd == rd.ok /\ ~rd.big /\ ~rd.tie /\ ~rd.hasfrac /\ rd.maxdigits < 10
+      outcome == IF p.top.k = "exc" THEN (IF "ValueError" \in ToSet(p.top.names) THEN "ValueError" ELSE "escaped") ELSE p.top.k
+      isNow == t = <<110, 111, 119>>                 \* parse("now") is a documented special case
+      excName == IF p.top.k = "exc" THEN p.top.names[1] ELSE "-"
+  IN IF isNow THEN R(<<"now">>, <<>>) ELSE
+     R(<<outcome, B(o.strict), B(o.exact), B(r.ok), B(rd.ok), B(HasForeign(t)), e.a.origin, "exc", excName,
+         "slash", B(Has(t, cSlash)), "nonascii", B(~ascii), "wide", B(rd.ok /\ rd.maxdigits >= 10),
+         "longdigits", B(\E i \in 1..(Len(t) - 9) : AllDigits(Sub(t, i, i + 9))),
+         "durfrac", B(rd.ok /\ rd.hasfrac), "trailing-newline", B(Len(t) > 0 /\ t[Len(t)] = 10)>>,
+       V("total", IF p.top.k = "exc" THEN "ValueError" \in ToSet(p.top.names) ELSE PendulumValue(p.top), "a pendulum value or ValueError")
+       \o V("low-level-total", (p.py.k = "exc" => "ValueError" \in ToSet(p.py.names)) /\ (p.rs.k = "exc" => "ValueError" \in ToSet(p.rs.names)),
+            "ValueError")
+       \o (IF p.py.k # "exc" /\ p.rs.k # "exc" THEN V("backends-agree", SameLow(p.py, p.rs), p.py) ELSE <<>>)
+       \o (IF o.strict /\ HasForeign(t) THEN V("strict-rejects-foreign-text", IsValueError(p.top), "ValueError") ELSE <<>>)
+       \o (IF r.ok /\ r.kind # "time" /\ r.d[1] >= 1583
+           THEN LET v == IF r.kind = "date" /\ ~o.exact THEN [r EXCEPT !.kind = "datetime"] ELSE r IN CmpParsed(p.top, v, PendCls, "recognised")
+           ELSE <<>>)
+       \o (IF okd THEN CmpParsedDur(p.top, rd, "recognised-duration") ELSE <<>>))
+
 \* ---- C15 -----------------------------------------------------------------------------
 J_year_prims(e) == LET y == e.a.y IN
    R(<<B(IsLeap(y)), B(IsLongYear(y))>>,
@@ -629,6 +664,7 @@ Judge(e) == CASE e.op = "in_tz" -> J_in_tz(e)
               [] e.op = "iso_roundtrip" -> J_iso_roundtrip(e)
               [] e.op = "dur_parse" -> J_dur_parse(e)
               [] e.op = "iv_parse" -> J_iv_parse(e)
+              [] e.op = "parse_any" -> J_parse_any(e)
               [] e.op = "year_prims" -> J_year_prims(e)
               [] e.op = "year_weekdays" -> J_year_weekdays(e)
               [] e.op = "year_getters" -> J_year_getters(e)
